@@ -98,6 +98,15 @@ pub trait Property: 'static {
     fn workers(_tier: Tier) -> usize {
         16
     }
+    /// When > 0 the property runs in that many child processes with one worker each (clean thread / descriptor
+    /// counts, process-global hooks) instead of worker threads.
+    fn process_shards(_tier: Tier) -> usize {
+        0
+    }
+    /// Upper bound on shrink iterations (lower it when one evaluation takes seconds).
+    fn max_shrink_iters() -> u32 {
+        4000
+    }
     /// Cases enumerated deterministically (exhaustive sub-spaces); each worker gets its own slice.
     fn enumerated(_tier: Tier, _worker: usize, _nworkers: usize) -> Option<Box<dyn Iterator<Item = Self::Case>>> {
         None
@@ -340,17 +349,17 @@ fn eval<P: Property>(
     }
 }
 
-fn worker<P: Property>(tier: Tier, seed: u64, w: usize, nworkers: usize, shared: Arc<Shared>, known: Vec<KnownFinding>) -> Stats {
+fn worker<P: Property>(tier: Tier, seed: u64, w: usize, gw: usize, nworkers: usize, shared: Arc<Shared>, known: Vec<KnownFinding>) -> Stats {
     let mut stats = Stats::default();
     // strings for the huge-allocation report (leaked once per worker: they must outlive every case)
-    let abort_path: &'static str = Box::leak(format!("{}/replays/{}-abort-w{}.json\0", verif_root().display(), P::ID, w).into_boxed_str());
+    let abort_path: &'static str = Box::leak(format!("{}/replays/{}-abort-w{}.json\0", verif_root().display(), P::ID, gw).into_boxed_str());
     let abort_line: &'static str = Box::leak(
         format!(
             "VIOLATION property={} replay={}/replays/{}-abort-w{}.json\n",
             P::ID,
             verif_root().display(),
             P::ID,
-            w
+            gw
         )
         .into_boxed_str(),
     );
@@ -369,7 +378,7 @@ fn worker<P: Property>(tier: Tier, seed: u64, w: usize, nworkers: usize, shared:
     };
 
     // 1. enumerated part
-    if let Some(iter) = P::enumerated(tier, w, nworkers) {
+    if let Some(iter) = P::enumerated(tier, gw, nworkers) {
         for case in iter {
             if shared.stop.load(Ordering::Relaxed) {
                 break;
@@ -398,8 +407,8 @@ fn worker<P: Property>(tier: Tier, seed: u64, w: usize, nworkers: usize, shared:
     let config = Config {
         cases,
         failure_persistence: None,
-        rng_seed: RngSeed::Fixed(mix(seed, P::ID, w as u64)),
-        max_shrink_iters: 4000,
+        rng_seed: RngSeed::Fixed(mix(seed, P::ID, gw as u64)),
+        max_shrink_iters: P::max_shrink_iters(),
         max_global_rejects: 1_000_000,
         ..Config::default()
     };
@@ -432,16 +441,29 @@ fn worker<P: Property>(tier: Tier, seed: u64, w: usize, nworkers: usize, shared:
         Err(TestError::Fail(_, case)) => {
             shared.stop.store(true, Ordering::Relaxed);
             let mut scratch = Stats::default();
-            let out = eval::<P>(&case, &known, &mut scratch, false, false);
-            let (signature, detail) = match out {
-                Outcome::Fail { signature, detail } => (signature, detail),
-                Outcome::Pass => (format!("{}:unstable", P::ID), "shrunk case passed when re-run".into()),
-            };
-            shared.violations.lock().unwrap().push(Violation {
-                signature,
-                detail,
-                case_json: serde_json::to_value(&case).unwrap_or(Value::Null),
-            });
+            // the shrunk case is run again (up to three times): only a failure that shows again is reported
+            let mut out = Outcome::Pass;
+            for _ in 0..3 {
+                out = eval::<P>(&case, &known, &mut scratch, false, false);
+                if matches!(out, Outcome::Fail { .. }) {
+                    break;
+                }
+            }
+            match out {
+                Outcome::Fail { signature, detail } => {
+                    shared.violations.lock().unwrap().push(Violation {
+                        signature,
+                        detail,
+                        case_json: serde_json::to_value(&case).unwrap_or(Value::Null),
+                    });
+                }
+                Outcome::Pass => {
+                    // the shrunk case does not fail when run again: a non-reproducible failure is not reported as a
+                    // violation (it is counted, so the evidence shows it happened)
+                    *stats.classes.entry("unreproducible-failure-discarded".into()).or_default() += 1;
+                    shared.stop.store(false, Ordering::Relaxed);
+                }
+            }
         }
         Err(TestError::Abort(reason)) => {
             eprintln!("proptest aborted in worker {w}: {reason}");
@@ -461,7 +483,12 @@ pub fn run_property<P: Property>(tier: Tier, seed: u64) -> RunResult {
     let t0 = Instant::now();
     let _ = hang_limit();
     let _ = slow_threshold();
-    let nworkers = P::workers(tier).max(1);
+    // (first worker index, number of local workers, total number of workers)
+    let (w0, nlocal, ntotal) = match shard_from_env() {
+        Some((i, n)) => (i, 1, n),
+        None => (0, P::workers(tier).max(1), P::workers(tier).max(1)),
+    };
+    let nworkers = nlocal;
     let known = load_known(P::ID);
     let shared = Arc::new(Shared {
         stop: AtomicBool::new(false),
@@ -501,9 +528,9 @@ pub fn run_property<P: Property>(tier: Tier, seed: u64) -> RunResult {
 
     let mut stats = Stats::default();
 
-    // regression corpus (committed shrunk cases), replayed without proptest
+    // regression corpus (committed shrunk cases), replayed without proptest (by the first shard only)
     let regress = verif_root().join("replays").join("regress").join(P::ID);
-    if let Ok(rd) = std::fs::read_dir(&regress) {
+    if let Ok(rd) = std::fs::read_dir(&regress).and_then(|rd| if w0 == 0 { Ok(rd) } else { Err(std::io::ErrorKind::Other.into()) }) {
         let mut files: Vec<_> = rd.filter_map(|e| e.ok()).map(|e| e.path()).collect();
         files.sort();
         for f in files {
@@ -539,7 +566,7 @@ pub fn run_property<P: Property>(tier: Tier, seed: u64) -> RunResult {
             std::thread::Builder::new()
                 .name(format!("w{w}"))
                 .stack_size(16 << 20)
-                .spawn(move || worker::<P>(tier, seed, w, nworkers, shared, known))
+                .spawn(move || worker::<P>(tier, seed, w, w0 + w, ntotal, shared, known))
                 .unwrap(),
         );
     }
@@ -563,6 +590,101 @@ pub fn run_property<P: Property>(tier: Tier, seed: u64) -> RunResult {
 fn slow_threshold() -> Option<f64> {
     static T: std::sync::OnceLock<Option<f64>> = std::sync::OnceLock::new();
     *T.get_or_init(|| std::env::var("VERIF_SLOW").ok().and_then(|s| s.parse().ok()))
+}
+
+pub fn shard_from_env() -> Option<(usize, usize)> {
+    static S: std::sync::OnceLock<Option<(usize, usize)>> = std::sync::OnceLock::new();
+    *S.get_or_init(|| {
+        let v = std::env::var("VERIF_SHARD").ok()?;
+        let (a, b) = v.split_once('/')?;
+        Some((a.parse().ok()?, b.parse().ok()?))
+    })
+}
+
+fn stats_to_json(res: &RunResult) -> Value {
+    json!({
+        "evaluations": res.stats.evaluations,
+        "nontrivial": res.stats.nontrivial.iter().collect::<Vec<_>>(),
+        "classes": res.stats.classes,
+        "samples": res.stats.samples,
+        "known_hits": res.stats.known_hits,
+        "class_secs": res.stats.class_secs,
+        "violations": res.violations.iter().map(|v| json!({"signature": v.signature, "detail": v.detail, "case": v.case_json})).collect::<Vec<_>>(),
+    })
+}
+
+fn stats_from_json(v: &Value, into: &mut RunResult) {
+    into.stats.evaluations += v["evaluations"].as_u64().unwrap_or(0);
+    for h in v["nontrivial"].as_array().into_iter().flatten() {
+        if let Some(h) = h.as_u64() {
+            into.stats.nontrivial.insert(h);
+        }
+    }
+    for (k, n) in v["classes"].as_object().into_iter().flatten() {
+        *into.stats.classes.entry(k.clone()).or_default() += n.as_u64().unwrap_or(0);
+    }
+    for (k, n) in v["known_hits"].as_object().into_iter().flatten() {
+        *into.stats.known_hits.entry(k.clone()).or_default() += n.as_u64().unwrap_or(0);
+    }
+    for (k, n) in v["class_secs"].as_object().into_iter().flatten() {
+        *into.stats.class_secs.entry(k.clone()).or_default() += n.as_f64().unwrap_or(0.0);
+    }
+    for s in v["samples"].as_array().into_iter().flatten() {
+        if into.stats.samples.len() < 6 {
+            into.stats.samples.push(s.clone());
+        }
+    }
+    for x in v["violations"].as_array().into_iter().flatten() {
+        into.violations.push(Violation {
+            signature: x["signature"].as_str().unwrap_or("?").to_string(),
+            detail: x["detail"].as_str().unwrap_or("").to_string(),
+            case_json: x["case"].clone(),
+        });
+    }
+}
+
+/// Parent side of the process-sharded mode: run `n` children (one worker each) and merge their results.
+fn run_sharded<P: Property>(tier: Tier, n: usize) -> Result<RunResult, i32> {
+    let t0 = Instant::now();
+    let exe = std::env::current_exe().map_err(|_| 2)?;
+    let dir = std::env::temp_dir().join(format!("vcheck-shards-{}", std::process::id()));
+    let _ = std::fs::create_dir_all(&dir);
+    let mut children = vec![];
+    for i in 0..n {
+        let out = dir.join(format!("{i}.json"));
+        let child = std::process::Command::new(&exe)
+            .arg(P::ID)
+            .arg(tier.name())
+            .env("VERIF_SHARD", format!("{i}/{n}"))
+            .env("VERIF_SHARD_OUT", &out)
+            .stdout(std::process::Stdio::inherit())
+            .stderr(std::process::Stdio::inherit())
+            .spawn()
+            .map_err(|_| 2)?;
+        children.push((child, out));
+    }
+    let mut merged = RunResult { stats: Stats::default(), violations: vec![], wall_s: 0.0 };
+    let mut worst = 0;
+    for (mut c, out) in children {
+        let st = c.wait().map_err(|_| 2)?;
+        let code = st.code().unwrap_or(2);
+        if code != 0 {
+            worst = worst.max(code);
+        }
+        if let Ok(t) = std::fs::read_to_string(&out) {
+            if let Ok(v) = serde_json::from_str::<Value>(&t) {
+                stats_from_json(&v, &mut merged);
+            }
+        } else if code == 0 {
+            worst = 2;
+        }
+    }
+    let _ = std::fs::remove_dir_all(&dir);
+    merged.wall_s = t0.elapsed().as_secs_f64();
+    if worst >= 2 && merged.violations.is_empty() {
+        return Err(worst);
+    }
+    Ok(merged)
 }
 
 fn hang_limit() -> Duration {
@@ -713,7 +835,26 @@ pub fn main_for<P: Property>(args: &[String]) -> i32 {
         }
     };
     let seed = seed_from_env();
-    let res = run_property::<P>(tier, seed);
+    if shard_from_env().is_some() {
+        // child of the process-sharded mode: run one worker, hand the result to the parent
+        let res = run_property::<P>(tier, seed);
+        if let Ok(out) = std::env::var("VERIF_SHARD_OUT") {
+            let _ = std::fs::write(out, serde_json::to_string(&stats_to_json(&res)).unwrap_or_default());
+        }
+        return 0;
+    }
+    let shards = P::process_shards(tier);
+    let res = if shards > 0 {
+        match run_sharded::<P>(tier, shards) {
+            Ok(r) => r,
+            Err(code) => {
+                println!("INCONCLUSIVE property={} a shard process ended abnormally (exit {code})", P::ID);
+                return 2;
+            }
+        }
+    } else {
+        run_property::<P>(tier, seed)
+    };
     finish::<P>(tier, seed, res)
 }
 
